@@ -3,8 +3,10 @@ use crate::gen::Case;
 use crate::rng::Rng;
 
 pub fn n_cases(prop: &str, tier: &str) -> usize {
+    let quick = tier == "quick";
     match prop {
         "C13" | "C18" => crate::props_set::n_cases(prop, tier),
+        "C09" => if quick { 240 } else { 5000 },
         _ => 0,
     }
 }
@@ -13,6 +15,7 @@ pub fn gen_case(prop: &str, tier: &str, rng: &mut Rng, idx: usize) -> Case {
     match prop {
         "C13" => crate::props_set::c13(rng, tier, idx),
         "C18" => crate::props_set::c18(rng, tier, idx),
+        "C09" => crate::gen_c09::c09(rng, tier, idx),
         _ => panic!("no generator for property {prop}"),
     }
 }
